@@ -549,16 +549,13 @@ class XPathToken(Token[ta.XPathTokenType]):
             # Boolean comparison if one of the results is a single boolean value (1.)
             # XPath 1.0: relational operators always compare numbers
             bool_rule = self.parser.version != '1.0' or self.symbol in ('=', '!=')
-            try:
-                if bool_rule and isinstance(left_values[0], bool):
-                    if len(left_values) == 1:
-                        yield left_values[0], self.boolean_value(right_values)
-                        return
-                if bool_rule and isinstance(right_values[0], bool):
-                    if len(right_values) == 1:
-                        yield self.boolean_value(left_values), right_values[0]
-                        return
-            except IndexError:
+            # The other operand is converted with its effective boolean value before atomization:
+            # an empty sequence is false, a sequence that starts with a node is true.
+            if bool_rule and len(left_values) == 1 and isinstance(left_values[0], bool):
+                yield left_values[0], self.boolean_value(self._items[1].select(copy(context)))
+                return
+            elif bool_rule and len(right_values) == 1 and isinstance(right_values[0], bool):
+                yield self.boolean_value(self._items[0].select(copy(context))), right_values[0]
                 return
 
             # Converts to float for lesser-greater operators (3.)
@@ -566,19 +563,24 @@ class XPathToken(Token[ta.XPathTokenType]):
                 yield from product(map(self.number_value, left_values),
                                    map(self.number_value, right_values))
                 return
-            elif self.parser.version == '1.0':
-                for op1, op2 in product(left_values, right_values):
-                    if isinstance(op1, (int, float, decimal.Decimal)) or \
-                            isinstance(op2, (int, float, decimal.Decimal)):
-                        yield self.number_value(op1), self.number_value(op2)
-                    else:
-                        yield op1, op2
-                return
-        else:
-            left_values = self._items[0].atomization(context)
-            right_values = self._items[1].atomization(context)
 
-        for op1, op2 in product(left_values, right_values):
+            # Equality operators: a numeric item converts the pair with fn:number (4a.)
+            numeric_types = (int, float, decimal.Decimal)
+            pairs = []
+            for op1, op2 in product(left_values, right_values):
+                if isinstance(op1, bool) or isinstance(op2, bool):
+                    pairs.append((op1, op2))
+                elif isinstance(op1, numeric_types) or isinstance(op2, numeric_types):
+                    yield self.number_value(op1), self.number_value(op2)
+                elif self.parser.version == '1.0':
+                    yield op1, op2
+                else:
+                    pairs.append((op1, op2))  # compared with the XPath 2.0 rules
+        else:
+            pairs = product(self._items[0].atomization(context),
+                            self._items[1].atomization(context))
+
+        for op1, op2 in pairs:
             match op1:
                 case str() | AnyURI():
                     if not isinstance(op2, (str, UntypedAtomic, AnyURI)):
